@@ -23,3 +23,118 @@ pub fn any_lt() -> LT {
         _ => LT::ReUse,
     }
 }
+
+use dvb_gse_rust::crc::CrcCalculator;
+use dvb_gse_rust::gse_encap::{ContextFrag, EncapMetadata, Encapsulator};
+
+/// Backing-array size of the lattice tier: lengths range over 0..=BIG.
+pub const BIG: usize = 70000;
+
+pub fn any_len(max: usize) -> usize {
+    let n: usize = kani::any();
+    kani::assume(n <= max);
+    n
+}
+
+pub fn any_label() -> Label {
+    let k: u8 = kani::any();
+    kani::assume(k < 4);
+    match k {
+        0 => Label::SixBytesLabel(kani::any()),
+        1 => Label::ThreeBytesLabel(kani::any()),
+        2 => Label::Broadcast,
+        _ => Label::ReUse,
+    }
+}
+
+pub fn is_zero6(l: &Label) -> bool {
+    match l {
+        Label::SixBytesLabel(b) => {
+            b[0] == 0 && b[1] == 0 && b[2] == 0 && b[3] == 0 && b[4] == 0 && b[5] == 0
+        }
+        _ => false,
+    }
+}
+
+/// Loop-free label equality (the derived one goes through a memcmp loop).
+pub fn label_eq(a: &Label, b: &Label) -> bool {
+    match (a, b) {
+        (Label::SixBytesLabel(x), Label::SixBytesLabel(y)) => {
+            x[0] == y[0] && x[1] == y[1] && x[2] == y[2] && x[3] == y[3] && x[4] == y[4] && x[5] == y[5]
+        }
+        (Label::ThreeBytesLabel(x), Label::ThreeBytesLabel(y)) => {
+            x[0] == y[0] && x[1] == y[1] && x[2] == y[2]
+        }
+        (Label::Broadcast, Label::Broadcast) => true,
+        (Label::ReUse, Label::ReUse) => true,
+        _ => false,
+    }
+}
+
+pub fn opt_label_eq(a: &Option<Label>, b: &Option<Label>) -> bool {
+    match (a, b) {
+        (None, None) => true,
+        (Some(x), Some(y)) => label_eq(x, y),
+        _ => false,
+    }
+}
+
+/// A label that can legitimately sit in a label memory: 3-byte or non-zero 6-byte.
+pub fn any_memorable_label() -> Label {
+    let six: bool = kani::any();
+    if six {
+        let l = Label::SixBytesLabel(kani::any());
+        kani::assume(!is_zero6(&l));
+        l
+    } else {
+        Label::ThreeBytesLabel(kani::any())
+    }
+}
+
+pub fn any_label_memory() -> Option<Label> {
+    let some: bool = kani::any();
+    if some {
+        Some(any_memorable_label())
+    } else {
+        None
+    }
+}
+
+/// Arbitrary encapsulator re-use state under the representation invariant (DESIGN 3.7):
+/// current <= max; !activated => max == 0 && current == 0; memory None / 3-byte / non-zero 6-byte.
+pub fn any_enc_state() -> (bool, u8, u8, Option<Label>) {
+    let act: bool = kani::any();
+    let max: u8 = kani::any();
+    let cur: u8 = kani::any();
+    kani::assume(cur <= max);
+    kani::assume(act || max == 0);
+    (act, max, cur, any_label_memory())
+}
+
+/// CRC calculator returning a fixed (symbolic) value: no loop over the PDU.
+#[derive(Clone, Copy, Debug, PartialEq, Eq)]
+pub struct ConstCrc(pub u32);
+impl CrcCalculator for ConstCrc {
+    fn calculate_crc32(&self, _pdu: &[u8], _pt: u16, _tl: u16, _label: &[u8]) -> u32 {
+        self.0
+    }
+}
+
+pub fn any_encapsulator() -> Encapsulator<ConstCrc> {
+    let (act, max, cur, last) = any_enc_state();
+    Encapsulator::verif_from_parts(ConstCrc(kani::any()), act, max, cur, last)
+}
+
+pub fn state_eq(a: &(bool, u8, u8, Option<Label>), b: &(bool, u8, u8, Option<Label>)) -> bool {
+    a.0 == b.0 && a.1 == b.1 && a.2 == b.2 && opt_label_eq(&a.3, &b.3)
+}
+
+pub fn any_ctx() -> ContextFrag {
+    ContextFrag::new(kani::any(), kani::any(), kani::any())
+}
+
+/// Zero-filled heap slice of symbolic length (calloc: no loop, no big array in the formula).
+/// Lattice-tier harnesses use it for PDUs / buffers whose *contents* are never read back.
+pub fn zeros(n: usize) -> core::mem::ManuallyDrop<Vec<u8>> {
+    core::mem::ManuallyDrop::new(vec![0u8; n])
+}
